@@ -1,5 +1,6 @@
 (* C20 — enums are open, canonical and immutable.
-   Statements only; every proof is one [exact] of a lemma of Proofs/EnumP.v.
+   Statements only; every proof is one [exact] of a lemma of Proofs/EnumP.v (the enum class, the scalar / element level
+   of both codecs) or of Proofs/C20Msg*.v (the message level: the five field positions, by instantiating C01 / C04).
 
    Vocabulary (Model/Enum.v, Proofs/EnumP.v):
      body : defn                   the class body, a list of  NAME = number  assignments, any length,
@@ -10,6 +11,12 @@
      canon ms v = (first_name ms v, v)   specification: first declared name of number v, None if undefined
      in_table c m                  model of "m is the very object stored in the class table"
    Every theorem quantifies over ALL bodies / numbers / histories; nothing is bounded. *)
+(* message level (the five positions): the shared codec models and C01 / C04, imported BEFORE Model.Enum / Proofs.EnumP so
+   that every name of the statements above the message-level section keeps denoting the enum model *)
+From BP Require Import Base.Prelude Model.Types Model.Object Model.Eq Model.Encode Model.Decode Model.WellFormed Model.C01Def
+     Model.Json Model.C20Msg.
+From BP Require Import Proofs.C04Def Proofs.C04ScalarP Proofs.C20MsgDef Proofs.C20MsgBin Proofs.C20MsgJson Proofs.C20MsgBuiltB
+     Proofs.C20MsgBuiltJ Proofs.C20MsgBuiltC Proofs.C20MsgAlias.
 From BP Require Import Base.Prelude Model.Varint Model.Scalar Model.Enum Spec.Varint.
 From BP Require Import Proofs.EnumP.
 
@@ -132,8 +139,9 @@ Print Assumptions C20_pickle.
    map-value positions): for every int32 number, defined or not, the varint written by
    _preprocess_single is read back by load_varint and turned by _postprocess_single (as fixed by
    fixes/c20-f3-enum-int32-decode.patch = /repo commit bdf150b) into the same value: canonical member or open value.
-   _partial: the message level (tag, length prefix, which field is written where, presence) is the lead's
-   codec model (C01); the five positions are exercised on the implementation by the oracle. *)
+   _partial: scalar level only; the message level (tag, length prefix, which field is written where, presence, the five
+   positions) is C20_roundtrip_message_binary below, an instance of C01_roundtrip over the shared codec model, whose enum
+   branch is this scalar path (C20_codec_bridge). *)
 Theorem C20_roundtrip_scalar_partial : forall body v,
   int32 v ->
   let c := class_of body in
@@ -199,7 +207,9 @@ Print Assumptions C20_packed_pinned_refuted.
 (* dict / JSON codec, element level (as fixed by fixes/c20-f8-unnamed-enum-json.patch = /repo commit f0e3c24;
    the same element functions serve singular, optional, oneof, repeated and — since a49c080 — map values): every number comes
    back as the same value; a defined number travels as its first declared name, an undefined one as the number.
-   _partial: the message level of to_dict/from_dict (casing, default skipping, containers) is C04's model. *)
+   _partial: element level only; the message level of to_dict/from_dict (casing, default skipping, containers, the five
+   positions) is C20_roundtrip_message_json below, an instance of C04's theorems over the shared codec model, whose enum
+   element functions are these (C20_codec_bridge). *)
 Theorem C20_roundtrip_json_partial : forall body v,
   let c := class_of body in
   from_json_el c (to_json_el c v) = Ok (try_value c v) /\
@@ -237,6 +247,193 @@ Theorem C20_json_pinned_open_refuted : forall body v,
   ~ In v (map snd (members_of body)) -> to_json_el_pinned (class_of body) v = Err EValue.
 Proof. exact json_pinned_rejects_every_open_value. Qed.
 Print Assumptions C20_json_pinned_open_refuted.
+
+(* ================================================================== message level: the five positions
+   Vocabulary (Model/C20Msg.v, Proofs/C20MsgDef.v), over the shared codec model of C01 / C04 (Model/Object.v schemas and
+   messages, Encode.enc_obj = bytes(m), Decode.parse = Cls().parse, Json.to_dict / from_dict_cls / from_dict_inst / json_rt_cls / json_rt_inst):
+     enum_position f = Some (pos, e)   field descriptor f is an enum-typed field of the schema's e-th enum in position
+                                       pos : PosSingular | PosRepeated | PosMapValue | PosOneof | PosOptional
+     read sc m i = Ok x                attribute i of message m reads as x (getattr: AttributeError for an unselected oneof
+                                       member, the default for PLACEHOLDER)
+     holds_enum pos x v                x holds the number v: x = v / v in the list x / v a value of the dict x
+     field_member sc e (PInt v)        the Python object an enum attribute holding v is: try_value of the field's class
+                                       (the codec models keep the number; Decode.postprocess_varint "then cls.try_value")
+     enum_json sc e v                  JStr (first declared name of v) if v has a name, JInt v otherwise
+     enum_field_json sc e x            the same for a number / a list of numbers / a dict of numbers
+     enum_omitted pos x                to_dict leaves the field out: 0 in a singular field, [] , {} , None in an optional
+     jlookup k j                       j.get(k)
+   All theorems hold for EVERY schema and EVERY message meeting C01's / C04's decidable side conditions. *)
+
+(* the classification is complete: in a well-formed class every field annotated E, Optional[E], List[E], Dict[K, E] for
+   an Enum subclass E is an enum field in one of the five positions *)
+Theorem C20_positions_complete : forall sc ng f e,
+  wf_field sc ng f = true -> hint_enum f = Some e -> exists pos, enum_position f = Some (pos, e).
+Proof. exact enum_position_complete. Qed.
+Print Assumptions C20_positions_complete.
+
+(* the enum branch of the shared codec models IS the enum scalar path of Model/Enum.v (the functions the _partial theorems
+   above are about), and the value an enum attribute holds is the canonical member of its number *)
+Theorem C20_codec_bridge : forall sc e,
+  (forall raw, postprocess_varint TEnum raw = PInt (snd (enum_post (enum_cls sc e) raw)) /\
+               field_member sc e (postprocess_varint TEnum raw) = Some (enum_post (enum_cls sc e) raw)) /\
+  (forall msg w v, preprocess_with msg TEnum w (PInt v) = enum_pre (try_value (enum_cls sc e) v)) /\
+  (forall z, dump_enum sc e z = enum_json sc e z) /\
+  (forall z, enum_from_json sc e (JInt z) = Ok (PInt z)) /\
+  (forall n, enum_from_json sc e (JStr n) =
+             match from_json_el (enum_cls sc e) (JName n) with Ok m => Ok (PInt (snd m)) | Err k => Err k end) /\
+  enum_cls sc e = class_of (enum_body sc e).
+Proof. exact codec_bridge. Qed.
+Print Assumptions C20_codec_bridge.
+
+Theorem C20_field_member : forall sc e v,
+  field_member sc e (PInt v) = Some (canon (members_of (enum_body sc e)) v) /\
+  (forall n, In (n, v) (members_of (enum_body sc e)) ->
+     exists n0, field_member sc e (PInt v) = Some (Some n0, v) /\ first_name (members_of (enum_body sc e)) v = Some n0 /\
+                in_table (enum_cls sc e) (Some n0, v) = true /\ enum_json sc e v = JStr n0) /\
+  (~ In v (map snd (members_of (enum_body sc e))) ->
+     field_member sc e (PInt v) = Some (None, v) /\ enum_json sc e v = JInt v).
+Proof. exact field_member_spec. Qed.
+Print Assumptions C20_field_member.
+
+(* BINARY.  For every schema meeting C01's schema condition, every message m of it meeting C01's value condition, every
+   enum-typed field (index i) of m's class in any of the five positions and every number v the attribute holds:
+   v is an int32; the attribute IS the canonical member of v (first declared name; nameless open value if undefined);
+   bytes(m) exists and - unless it is 2^64 bytes long - Cls().parse(bytes(m)) succeeds with a message whose attribute i reads
+   as the very same value x (same number at the same list index / under the same map key, same selected oneof member,
+   an optional that was set is still set), and which encodes to the same bytes again.
+   Negative, unnamed and alias numbers are not special cases: v is any number the field holds.
+   (Everything C01_roundtrip says about the rest of the message holds as well; not repeated here.) *)
+Theorem C20_roundtrip_message_binary : forall sc m i f pos e x v,
+  c01_schema_ok sc = true -> c01_value_ok sc m = true ->
+  nth_error (cfields (get_class sc (ocls m))) i = Some f -> enum_position f = Some (pos, e) ->
+  read sc m i = Ok x -> holds_enum pos x v = true ->
+  int32 v /\
+  field_member sc e (PInt v) = Some (canon (members_of (enum_body sc e)) v) /\
+  exists bs, enc_obj sc m = Ok bs /\
+    (Zlength bs < 2 ^ 64 ->
+     exists m', parse sc (ocls m) bs = Ok m' /\
+       read sc m' i = Ok x /\
+       (forall g, which_one_of m' g = which_one_of m g) /\
+       enc_obj sc m' = Ok bs).
+Proof. exact roundtrip_message_binary. Qed.
+Print Assumptions C20_roundtrip_message_binary.
+
+(* DICT / JSON.  For every well-formed schema whose keys address their fields (C04's keys_ok, for the casing cs used), every
+   good message m (C04's value condition), every enum-typed field in any of the five positions reading as x and holding v:
+   to_dict(m) - and json.loads(json.dumps(to_dict(m))) for text = true - carries under the field's key exactly
+   enum_field_json x: the first declared name of every number that has one, the number itself otherwise (the field is left
+   out exactly when it holds the proto3 default without presence); and from_dict of that dict - classmethod and instance form,
+   directly and through the JSON text (json_rt_cls, json_rt_inst = from_json(to_json())) - builds ONE message m' whose attribute i reads as
+   the same x, with m' == m and bytes(m') = bytes(m). *)
+Theorem C20_roundtrip_message_json : forall sc cs m i f pos e x v,
+  wf_schema sc = true -> keys_ok cs sc = true -> good sc m = true ->
+  nth_error (cfields (get_class sc (ocls m))) i = Some f -> enum_position f = Some (pos, e) ->
+  read sc m i = Ok x -> holds_enum pos x v = true ->
+  int32 v /\
+  (forall text : bool,
+     jlookup (key_of_field cs f) (tr text (to_dict cs false sc m)) =
+     if enum_omitted pos x then None else Some (tr text (enum_field_json sc e x))) /\
+  exists m',
+    (forall text : bool,
+       from_dict_cls sc (ocls m) (tr text (to_dict cs false sc m)) = Ok m' /\
+       from_dict_inst sc (new sc (ocls m)) (tr text (to_dict cs false sc m)) = Ok m') /\
+    json_rt_cls cs false sc m = Ok m' /\ json_rt_inst cs false sc m (new sc (ocls m)) = Ok m' /\
+    read sc m' i = Ok x /\
+    obj_eq sc m' m = true /\ enc_obj sc m' = enc_obj sc m.
+Proof. exact roundtrip_message_json. Qed.
+Print Assumptions C20_roundtrip_message_json.
+
+(* the JSON text changes nothing in the enum part of the document: names stay strings, numbers stay numbers (the keys of
+   a map become strings, as for every map field) *)
+Theorem C20_json_text_form : forall text sc e x,
+  tr text (enum_field_json sc e x) =
+  match x with
+  | PDict d => JObj (map (fun ky => (trk text (raw_json (fst ky)), enum_elem_json sc e (snd ky))) d)
+  | _ => enum_field_json sc e x
+  end.
+Proof. exact tr_enum_field_json. Qed.
+Print Assumptions C20_json_text_form.
+
+(* The two theorems above quantify over every message meeting C01's / C04's value conditions.  These two say the conditions
+   are met - in EVERY schema meeting the schema conditions, for EVERY enum-typed field in any of the five positions and EVERY
+   int32 number v, named or not, negative or not - by the message
+       m = Cls(); m.f = v          (m.f = [v] for a repeated field, m.f = {k: v} for a map field, k any in-range key)
+   ([built], Model/C20Msg.v: setattr on the fresh object; for a oneof member this selects it), so that for such a message
+   nothing is assumed about the message at all: it holds v, encodes, decodes to a message whose field reads as v (the canonical
+   member of v), re-encodes identically; to_dict carries the name of v if it has one and the number otherwise (the field is
+   omitted only for v = 0 in the singular position), and from_dict / from_json give the field back reading as v. *)
+Theorem C20_roundtrip_message_binary_built : forall sc c i f pos e k v,
+  c01_schema_ok sc = true ->
+  nth_error (cfields (get_class sc c)) i = Some f -> enum_position f = Some (pos, e) ->
+  int32 v -> (pos = PosMapValue -> scalar_in_range (key_type f) k = true) ->
+  let m := built sc c i pos k v in
+  c01_value_ok sc m = true /\
+  read sc m i = Ok (place pos k v) /\ holds_enum pos (place pos k v) v = true /\
+  field_member sc e (PInt v) = Some (canon (members_of (enum_body sc e)) v) /\
+  exists bs, enc_obj sc m = Ok bs /\
+    (Zlength bs < 2 ^ 64 ->
+     exists m', parse sc c bs = Ok m' /\
+       read sc m' i = Ok (place pos k v) /\
+       (forall g, which_one_of m' g = which_one_of m g) /\
+       enc_obj sc m' = Ok bs).
+Proof. exact roundtrip_built_binary_full. Qed.
+Print Assumptions C20_roundtrip_message_binary_built.
+
+Theorem C20_roundtrip_message_json_built : forall sc cs c i f pos e k v,
+  wf_schema sc = true -> keys_ok cs sc = true ->
+  nth_error (cfields (get_class sc c)) i = Some f -> enum_position f = Some (pos, e) ->
+  int32 v -> (pos = PosMapValue -> scalar_in_range (key_type f) k = true) ->
+  let m := built sc c i pos k v in
+  good sc m = true /\
+  read sc m i = Ok (place pos k v) /\ holds_enum pos (place pos k v) v = true /\
+  (forall text : bool,
+     jlookup (key_of_field cs f) (tr text (to_dict cs false sc m)) =
+     if enum_omitted pos (place pos k v) then None else Some (tr text (enum_field_json sc e (place pos k v)))) /\
+  exists m',
+    (forall text : bool,
+       from_dict_cls sc c (tr text (to_dict cs false sc m)) = Ok m' /\
+       from_dict_inst sc (new sc c) (tr text (to_dict cs false sc m)) = Ok m') /\
+    json_rt_cls cs false sc m = Ok m' /\ json_rt_inst cs false sc m (new sc c) = Ok m' /\
+    read sc m' i = Ok (place pos k v) /\
+    obj_eq sc m' m = true /\ enc_obj sc m' = enc_obj sc m.
+Proof. exact roundtrip_built_json_full. Qed.
+Print Assumptions C20_roundtrip_message_json_built.
+
+(* the constructor form builds the same message:  Cls(f=v)  =  (m = Cls(); m.f = v) *)
+Theorem C20_built_is_constructor : forall sc c i f pos e k v,
+  wf_schema sc = true ->
+  nth_error (cfields (get_class sc c)) i = Some f -> enum_position f = Some (pos, e) ->
+  construct sc c [(i, place pos k v)] = built sc c i pos k v.
+Proof. exact construct_is_built_wf. Qed.
+Print Assumptions C20_built_is_constructor.
+
+(* what the built message's field looks like in the document, position by position *)
+Theorem C20_built_json_form : forall sc e k v,
+  enum_field_json sc e (place PosSingular k v) = enum_json sc e v /\
+  enum_field_json sc e (place PosOneof k v) = enum_json sc e v /\
+  enum_field_json sc e (place PosOptional k v) = enum_json sc e v /\
+  enum_field_json sc e (place PosRepeated k v) = JList [enum_json sc e v] /\
+  enum_field_json sc e (place PosMapValue k v) = JObj [(raw_json k, enum_json sc e v)] /\
+  (enum_omitted PosSingular (place PosSingular k v) = (v =? 0)) /\
+  enum_omitted PosOneof (place PosOneof k v) = false /\ enum_omitted PosOptional (place PosOptional k v) = false /\
+  enum_omitted PosRepeated (place PosRepeated k v) = false /\ enum_omitted PosMapValue (place PosMapValue k v) = false.
+Proof. exact built_json_form. Qed.
+Print Assumptions C20_built_json_form.
+
+(* from_dict on what OTHER writers produce (lookup by name, at the message level): in each of the five positions the document
+   {key: j} / {key: [j]} / {key: {jk: j}} where j is the number v or ANY declared name of v - the first declared one or an
+   alias - is accepted by both forms of from_dict and gives exactly the message  m = Cls(); m.f = v  of the theorems above
+   (whose attribute is the canonical member of v).   json_names sc e j v :=  j = JInt v \/ exists n, j = JStr n /\ (n, v) declared *)
+Theorem C20_message_json_accepts_names : forall sc cs c i f pos e jk j k v,
+  wf_schema sc = true -> keys_ok cs sc = true ->
+  nth_error (cfields (get_class sc c)) i = Some f -> enum_position f = Some (pos, e) ->
+  json_names sc e j v ->
+  (pos = PosMapValue -> key_from_json (key_type f) jk = Ok k) ->
+  from_dict_cls sc c (jdoc (key_of_field cs f) pos jk j) = Ok (built sc c i pos k v) /\
+  from_dict_inst sc (new sc c) (jdoc (key_of_field cs f) pos jk j) = Ok (built sc c i pos k v) /\
+  read sc (built sc c i pos k v) i = Ok (place pos k v) /\ holds_enum pos (place pos k v) v = true.
+Proof. exact from_dict_accepts_names. Qed.
+Print Assumptions C20_message_json_accepts_names.
 
 (* ------------------------------------------------------------------ non-vacuity *)
 Definition ex_body : defn :=   (* ZERO=0 RED=1 ROUGE=1 NEG=-1 MAX=2^31-1 MIN=-2^31, then RED re-assigned to 1 again, __x=9 *)
@@ -292,3 +489,128 @@ Example C20_ex_five_byte_negative :   (* ff ff ff ff 0f = 2^32-1 is read as NEG 
   VarintRep (2 ^ 32 - 1) [xff; xff; xff; xff; x0f] /\ (2 ^ 32 - 1) mod 2 ^ 32 = (-1) mod 2 ^ 32 /\
   enum_post (class_of ex_body) (2 ^ 32 - 1) = (Some [x4e; x45; x47], -1).
 Proof. split; [repeat split; cbn; lia|]. split; [reflexivity|vm_compute; reflexivity]. Qed.
+
+(* ---- message level: one schema with all five positions ----
+   enum 0:  ZERO=0 RED=1 ROUGE=1 (alias) NEG=-1 MIN=-2^31 MAX=2^31-1
+   class 11: s: E = 1; r: repeated E = 2; m: map<string, E> = 3; oneof g0 { a: E = 4; b: string = 5 }; o: optional E = 6
+   class 12: the synthetic Entry class of m *)
+Definition ex5_enum : edesc :=
+  mkE [([x5a; x45; x52; x4f], 0); ([x52; x45; x44], 1); ([x52; x4f; x55; x47; x45], 1); ([x4e; x45; x47], -1);
+       ([x4d; x49; x4e], -2147483648); ([x4d; x41; x58], 2147483647)].
+Definition ex5_schema : schema :=
+  mkS (builtin_classes ++
+       [mkC [mkF [x73] 1 TEnum None None None false (HPlain (PyEnum 0)) 0;
+             mkF [x72] 2 TEnum None None None false (HList (PyEnum 0)) 0;
+             mkF [x6d] 3 TMap (Some (TString, TEnum)) None None false (HDict PyStr (PyEnum 0)) 12;
+             mkF [x61] 4 TEnum None (Some 0%nat) None false (HPlain (PyEnum 0)) 0;
+             mkF [x62] 5 TString None (Some 0%nat) None false (HPlain PyStr) 0;
+             mkF [x6f] 6 TEnum None None None true (HOptional (PyEnum 0)) 0] 1;
+        mkC [mkF [x6b; x65; x79] 1 TString None None None false (HPlain PyStr) 0;
+             mkF [x76; x61; x6c; x75; x65] 2 TEnum None None None false (HPlain (PyEnum 0)) 0] 0])
+      [ex5_enum].
+(* s = NEG; r = [RED (by its alias number), 5 (no name), MIN, ZERO]; m = {"k": 7 (no name), "": 1};
+   the oneof selects a, holding its default 0; o is set to 0 *)
+Definition ex5_obj : obj :=
+  Obj 11 [PInt (-1); PList [PInt 1; PInt 5; PInt (-2147483648); PInt 0];
+          PDict [(PStr [x6b], PInt 7); (PStr [], PInt 1)]; PInt 0; PPlaceholder; PInt 0]
+      true [] [Some 3%nat].
+
+Example C20_ex5_hypotheses :
+  c01_schema_ok ex5_schema = true /\ c01_value_ok ex5_schema ex5_obj = true /\
+  wf_schema ex5_schema = true /\ keys_ok CAMEL ex5_schema = true /\ keys_ok SNAKE ex5_schema = true /\
+  good ex5_schema ex5_obj = true.
+Proof. vm_compute. repeat split; reflexivity. Qed.
+
+Example C20_ex5_positions :
+  map enum_position (cfields (get_class ex5_schema 11)) =
+  [Some (PosSingular, 0%nat); Some (PosRepeated, 0%nat); Some (PosMapValue, 0%nat); Some (PosOneof, 0%nat); None;
+   Some (PosOptional, 0%nat)].
+Proof. vm_compute. reflexivity. Qed.
+
+(* every position holds numbers: named, alias, unnamed, negative, the int32 bounds, the default *)
+Example C20_ex5_holds :
+  read ex5_schema ex5_obj 0 = Ok (PInt (-1)) /\ holds_enum PosSingular (PInt (-1)) (-1) = true /\
+  (exists x, read ex5_schema ex5_obj 1 = Ok x /\ holds_enum PosRepeated x 5 = true /\
+             holds_enum PosRepeated x (-2147483648) = true /\ holds_enum PosRepeated x 1 = true) /\
+  (exists x, read ex5_schema ex5_obj 2 = Ok x /\ holds_enum PosMapValue x 7 = true /\ holds_enum PosMapValue x 1 = true) /\
+  read ex5_schema ex5_obj 3 = Ok (PInt 0) /\ holds_enum PosOneof (PInt 0) 0 = true /\
+  read ex5_schema ex5_obj 5 = Ok (PInt 0) /\ holds_enum PosOptional (PInt 0) 0 = true.
+Proof. vm_compute. repeat split; try reflexivity; eexists; repeat split; reflexivity. Qed.
+
+(* the members the attributes are: NEG for -1, RED (first declared) for the alias number 1, a nameless value for 5 *)
+Example C20_ex5_members :
+  field_member ex5_schema 0 (PInt (-1)) = Some (Some [x4e; x45; x47], -1) /\
+  field_member ex5_schema 0 (PInt 1) = Some (Some [x52; x45; x44], 1) /\
+  field_member ex5_schema 0 (PInt 5) = Some (None, 5) /\
+  In ([x52; x4f; x55; x47; x45], 1) (members_of (enum_body ex5_schema 0)).
+Proof. vm_compute. repeat split; try reflexivity. right. right. left. reflexivity. Qed.
+
+(* the binary round trip, computed: 5 positions come back reading as before, same bytes again *)
+Example C20_ex5_binary :
+  match enc_obj ex5_schema ex5_obj with
+  | Ok bs =>
+      (Zlength bs = 41) /\
+      match parse ex5_schema 11 bs with
+      | Ok m' => map (read ex5_schema m') [0; 1; 2; 3; 4; 5]%nat = map (read ex5_schema ex5_obj) [0; 1; 2; 3; 4; 5]%nat /\
+                 read ex5_schema m' 4 = Err EAttribute /\ enc_obj ex5_schema m' = Ok bs
+      | Err _ => False
+      end
+  | Err _ => False
+  end.
+Proof. vm_compute. repeat split; reflexivity. Qed.
+
+(* the JSON document: names where there are names, numbers otherwise; and back *)
+Example C20_ex5_json :
+  to_dict CAMEL false ex5_schema ex5_obj =
+  JObj [(JStr [x73], JStr [x4e; x45; x47]);
+        (JStr [x72], JList [JStr [x52; x45; x44]; JInt 5; JStr [x4d; x49; x4e]; JStr [x5a; x45; x52; x4f]]);
+        (JStr [x6d], JObj [(JStr [x6b], JInt 7); (JStr [], JStr [x52; x45; x44])]);
+        (JStr [x61], JStr [x5a; x45; x52; x4f]);
+        (JStr [x6f], JStr [x5a; x45; x52; x4f])] /\
+  jlookup (key_of_field CAMEL (mkF [x72] 2 TEnum None None None false (HList (PyEnum 0)) 0)) (to_dict CAMEL false ex5_schema ex5_obj)
+  = Some (enum_field_json ex5_schema 0 (PList [PInt 1; PInt 5; PInt (-2147483648); PInt 0])) /\
+  match json_rt_inst SNAKE false ex5_schema ex5_obj (new ex5_schema 11) with
+  | Ok m' => map (read ex5_schema m') [0; 1; 2; 3; 4; 5]%nat = map (read ex5_schema ex5_obj) [0; 1; 2; 3; 4; 5]%nat /\
+             obj_eq ex5_schema m' ex5_obj = true /\ enc_obj ex5_schema m' = enc_obj ex5_schema ex5_obj
+  | Err _ => False
+  end.
+Proof. vm_compute. repeat split; reflexivity. Qed.
+
+(* a singular field holding 0 and empty containers are the ones to_dict leaves out; they still read as before *)
+Definition ex5_default : obj :=
+  Obj 11 [PInt 0; PList []; PDict []; PPlaceholder; PPlaceholder; PNone] true [] [None].
+Example C20_ex5_default :
+  c01_value_ok ex5_schema ex5_default = true /\ good ex5_schema ex5_default = true /\
+  to_dict CAMEL false ex5_schema ex5_default = JObj [] /\
+  enum_omitted PosSingular (PInt 0) = true /\ enum_omitted PosRepeated (PList []) = true /\
+  match from_dict_cls ex5_schema 11 (JObj []) with
+  | Ok m' => read ex5_schema m' 0 = Ok (PInt 0) /\ read ex5_schema m' 1 = Ok (PList []) /\ read ex5_schema m' 2 = Ok (PDict [])
+  | Err _ => False
+  end.
+Proof. vm_compute. repeat split; reflexivity. Qed.
+
+(* the built message in the example schema: -1 in the map position, key "k"; hypotheses of the _built theorems *)
+Example C20_ex5_built :
+  c01_schema_ok ex5_schema = true /\ wf_schema ex5_schema = true /\ keys_ok CAMEL ex5_schema = true /\
+  nth_error (cfields (get_class ex5_schema 11)) 2 = Some (mkF [x6d] 3 TMap (Some (TString, TEnum)) None None false (HDict PyStr (PyEnum 0)) 12) /\
+  int32 (-1) /\ scalar_in_range TString (PStr [x6b]) = true /\
+  built ex5_schema 11 2 PosMapValue (PStr [x6b]) (-1) =
+    Obj 11 [PPlaceholder; PPlaceholder; PDict [(PStr [x6b], PInt (-1))]; PPlaceholder; PPlaceholder; PNone] true [] [None] /\
+  built ex5_schema 11 3 PosOneof PNone 5 =
+    Obj 11 [PPlaceholder; PPlaceholder; PPlaceholder; PInt 5; PPlaceholder; PNone] true [] [Some 3%nat] /\
+  to_dict CAMEL false ex5_schema (built ex5_schema 11 2 PosMapValue (PStr [x6b]) (-1)) =
+    JObj [(JStr [x6d], JObj [(JStr [x6b], JStr [x4e; x45; x47])])].
+Proof. unfold int32. vm_compute. repeat split; try reflexivity; discriminate. Qed.
+
+(* an alias in the document: {"m": {"k": "ROUGE"}} gives the message holding 1 under "k" (whose member is RED) *)
+Example C20_ex5_alias :
+  json_names ex5_schema 0 (JStr [x52; x4f; x55; x47; x45]) 1 /\
+  key_from_json TString (JStr [x6b]) = Ok (PStr [x6b]) /\
+  from_dict_cls ex5_schema 11 (jdoc [x6d] PosMapValue (JStr [x6b]) (JStr [x52; x4f; x55; x47; x45]))
+  = Ok (built ex5_schema 11 2 PosMapValue (PStr [x6b]) 1) /\
+  from_dict_cls ex5_schema 11 (jdoc [x72] PosRepeated (JStr []) (JStr [x52; x4f; x55; x47; x45]))
+  = Ok (built ex5_schema 11 1 PosRepeated PNone 1).
+Proof.
+  split; [right; exists [x52; x4f; x55; x47; x45]; split; [reflexivity|vm_compute; right; right; left; reflexivity]|].
+  vm_compute. repeat split; reflexivity.
+Qed.
